@@ -362,8 +362,11 @@ impl Alphabet {
             a.mapqs.extend([1, 93]);
         }
         if heavy {
-            a.cigars.extend([CigarSel::Ops(65535), CigarSel::Ops(65536), CigarSel::Ops(70000), CigarSel::OpsIns(65536)]);
+            a.cigars.extend([CigarSel::Ops(65535), CigarSel::Ops(65536), CigarSel::Ops(70000)]);
             a.seqlens.push(SeqLen::Fixed(65536));
+            if wide {
+                a.cigars.push(CigarSel::OpsIns(65536));
+            }
         }
         a
     }
@@ -377,7 +380,10 @@ impl Alphabet {
         // drop the purely BAM-side overflow entries that C05 owns; keep one of each class
         a.poss.retain(|p| *p != Some((1 << 32) + 1));
         if heavy {
-            a.cigars.extend([CigarSel::Ops(65535), CigarSel::Ops(65536)]);
+            a.cigars.push(CigarSel::Ops(65536));
+            if wide {
+                a.cigars.extend([CigarSel::Ops(65535), CigarSel::OpsIns(65536)]);
+            }
         }
         a
     }
